@@ -223,6 +223,9 @@ fn main() {
         "c12alloc" => {
             let g = |k: &str, d: &str| parse_u64(&arg_val(&args, k).unwrap_or_else(|| d.into()));
             let dir = arg_val(&args, "--dir").unwrap_or_else(|| harness_error("--dir"));
+            if args.iter().any(|a| a == "--skew") {
+                c18::SKEW.store(true, std::sync::atomic::Ordering::Relaxed);
+            }
             let (code, rep) = c18::c12_alloc_fault(g("--api", "5") as u8, g("--min-size", "65536") as usize, g("--skip", "0"), g("--len", "300000") as usize, g("--seed", "1"), &dir);
             println!("{}", serde_json::to_string(&rep).unwrap());
             code
